@@ -16,6 +16,7 @@ import (
 	"github.com/mithrandie/csvq/lib/option"
 	"github.com/mithrandie/csvq/lib/parser"
 	"github.com/mithrandie/csvq/lib/value"
+	"github.com/mithrandie/csvq/lib/vhook"
 
 	"github.com/mithrandie/go-text/color"
 	"github.com/mithrandie/go-text/fixedlen"
@@ -133,6 +134,7 @@ func (tx *Transaction) UseColor(useColor bool) {
 }
 
 func (tx *Transaction) Commit(ctx context.Context, scope *ReferenceScope, expr parser.Expression) error {
+	vhook.AwaitMutex("operation", tx.operationMutex)
 	tx.operationMutex.Lock()
 	defer tx.operationMutex.Unlock()
 
@@ -142,10 +144,13 @@ func (tx *Transaction) Commit(ctx context.Context, scope *ReferenceScope, expr p
 	updateFileInfo := make([]*FileInfo, 0, len(updatedFiles))
 
 	if 0 < len(createdFiles) {
-		for _, fileInfo := range createdFiles {
+		for _, fileInfo := range commitOrder(createdFiles) {
 			view, _ := tx.CachedViews.Get(fileInfo.IdentifiedPath())
 
 			fp, _ := view.FileInfo.Handler.FileForUpdate()
+			if err := vhook.Step("tx.commit.truncate", fileInfo.Path); err != nil {
+				return NewSystemError(err.Error())
+			}
 			if err := fp.Truncate(0); err != nil {
 				return NewSystemError(err.Error())
 			}
@@ -153,11 +158,14 @@ func (tx *Transaction) Commit(ctx context.Context, scope *ReferenceScope, expr p
 				return NewSystemError(err.Error())
 			}
 
-			if _, err := EncodeView(ctx, fp, view, fileInfo.ExportOptions(tx), tx.Palette); err != nil {
+			if _, err := EncodeView(ctx, vhook.Writer("tx.commit.write", fp), view, fileInfo.ExportOptions(tx), tx.Palette); err != nil {
 				return NewCommitError(expr, err.Error())
 			}
 
 			if !tx.Flags.ExportOptions.StripEndingLineBreak && !(fileInfo.Format == option.FIXED && fileInfo.SingleLine) {
+				if err := vhook.Step("tx.commit.linebreak", fileInfo.Path); err != nil {
+					return NewCommitError(expr, err.Error())
+				}
 				if _, err := fp.Write([]byte(tx.Flags.ExportOptions.LineBreak.Value())); err != nil {
 					return NewCommitError(expr, err.Error())
 				}
@@ -168,10 +176,13 @@ func (tx *Transaction) Commit(ctx context.Context, scope *ReferenceScope, expr p
 	}
 
 	if 0 < len(updatedFiles) {
-		for _, fileInfo := range updatedFiles {
+		for _, fileInfo := range commitOrder(updatedFiles) {
 			view, _ := tx.CachedViews.Get(fileInfo.IdentifiedPath())
 
 			fp, _ := view.FileInfo.Handler.FileForUpdate()
+			if err := vhook.Step("tx.commit.truncate", fileInfo.Path); err != nil {
+				return NewSystemError(err.Error())
+			}
 			if err := fp.Truncate(0); err != nil {
 				return NewSystemError(err.Error())
 			}
@@ -179,11 +190,14 @@ func (tx *Transaction) Commit(ctx context.Context, scope *ReferenceScope, expr p
 				return NewSystemError(err.Error())
 			}
 
-			if _, err := EncodeView(ctx, fp, view, fileInfo.ExportOptions(tx), tx.Palette); err != nil {
+			if _, err := EncodeView(ctx, vhook.Writer("tx.commit.write", fp), view, fileInfo.ExportOptions(tx), tx.Palette); err != nil {
 				return NewCommitError(expr, err.Error())
 			}
 
 			if !tx.Flags.ExportOptions.StripEndingLineBreak && !(fileInfo.Format == option.FIXED && fileInfo.SingleLine) {
+				if err := vhook.Step("tx.commit.linebreak", fileInfo.Path); err != nil {
+					return NewCommitError(expr, err.Error())
+				}
 				if _, err := fp.Write([]byte(tx.Flags.ExportOptions.LineBreak.Value())); err != nil {
 					return NewCommitError(expr, err.Error())
 				}
@@ -193,6 +207,7 @@ func (tx *Transaction) Commit(ctx context.Context, scope *ReferenceScope, expr p
 		}
 	}
 
+	vhook.Event("tx.commit.swap", "")
 	for _, f := range createFileInfo {
 		if err := tx.FileContainer.Commit(f.Handler); err != nil {
 			return NewCommitError(expr, err.Error())
@@ -217,10 +232,12 @@ func (tx *Transaction) Commit(ctx context.Context, scope *ReferenceScope, expr p
 	if err := tx.ReleaseResources(); err != nil {
 		return NewCommitError(expr, err.Error())
 	}
+	vhook.Event("tx.commit.done", "")
 	return nil
 }
 
 func (tx *Transaction) Rollback(scope *ReferenceScope, expr parser.Expression) error {
+	vhook.AwaitMutex("operation", tx.operationMutex)
 	tx.operationMutex.Lock()
 	defer tx.operationMutex.Unlock()
 
@@ -249,6 +266,7 @@ func (tx *Transaction) Rollback(scope *ReferenceScope, expr parser.Expression) e
 	if err := tx.ReleaseResources(); err != nil {
 		return NewRollbackError(expr, err.Error())
 	}
+	vhook.Event("tx.rollback.done", "")
 	return nil
 }
 
